@@ -94,6 +94,7 @@ def one_schedule(n_callers, plan, chooser, seed, lines=True):
     from bromelia.avps import SessionIdAVP
     s = simlib.Sim(seed=seed, trace_files=("bromelia/bromelia.py",) if lines else (), trace_funcs=TRACE_FUNCS, max_steps=60000, timeout_prob=0)
     s.keep_log = False
+    s.spin_timeout = 8.0
     mods, undo = simlib.install(s, [BB])
     log = []
     who = lambda: s.cur.name if s.cur is not None else "ctl"
@@ -286,9 +287,13 @@ def explore(chk, rng, n_random, n_dfs, tag):
         for prefix, fanout, res in simlib.dfs(run_one, n_dfs):
             record(res, n_callers, plan, "dfs")
             count += 1
+            if chk.saturated():
+                break
         chk.extra.setdefault("dfs", []).append({"callers": n_callers, "plan": plan, "schedules": count,
                                                 "complete": bool(getattr(simlib.dfs, "complete", False))})
     for _ in range(n_random):
+        if chk.saturated():
+            break
         n_callers = rng.choice([1, 2, 3, 4])
         plan = {"answers": [rng.choice([1, 1, 1, 2]) for _ in range(n_callers)], "stray": rng.choice([0, 0, 1])}
         seed = rng.randrange(2 ** 30)
